@@ -451,7 +451,7 @@ func runManifest(o *Opts) {
 					qs = append(qs, fmt.Sprintf("QReverse %s %s", coqStr(q.In), obs))
 				}
 			}
-			c.Coq = fmt.Sprintf("Case (s2l \"/bundle\") %s %s %s %s", coqManifest(doc), coqBool(dom), opened, coqList(qs))
+			c.Coq = fmt.Sprintf("Case (s2l \"/bundle\") %s %s false %s %s", coqManifest(doc), coqBool(dom), opened, coqList(qs))
 		}
 		sink.Add(c)
 	}
